@@ -120,8 +120,10 @@ CHECKS["C13"] = ("Proof: tool's token table = pinned MO5 table, codes >= 0x80 / 
                  "length, records, zero link; one record per line iff every line is numbered; C13.pieces_encode_independently — a line cut into pieces "
                  "that each end, outside a string literal, with a special character (the statements of a line in particular) is encoded piece by "
                  "piece, no token straddles a special character; keyword_then_separator (whole table x six characters); delimited_keywords — any "
-                 "sequence of keywords each followed by a special character is stored as the sequence of their tokens. Identifiers and numbers "
-                 "between keywords (encodeBody = encodeRef on every delimited line) are checked, not proved. Tie/oracle: vocabulary listings through real moto_lst2bas vs model, Lean structure decoder, Lean reference encoder.", D, "7 C13")
+                 "sequence of keywords each followed by a special character is stored as the sequence of their tokens; C13.simple_line — every line "
+                 "made of keywords, words of characters that occur in no keyword (numbers, J, Z, #, %, ...) and string literals, each followed by a "
+                 "special character, is stored as tokens / upper-cased words / verbatim literals. Words of letters that may contain keywords "
+                 "(identifiers) are checked against the reference encoder, not proved. Tie/oracle: vocabulary listings through real moto_lst2bas vs model, Lean structure decoder, Lean reference encoder.", D, "7 C13")
 CHECKS["C14"] = ("Proof: C14.lossless — for every ASCII line body, detokenizing (Spec.BasicRef.decode) the bytes the tokenizer model emits gives "
                  "the text upper-cased outside string literals (C17's automaton): invariant over the four branches of appendAsToken incl. the "
                  "repaired early-match branch, closure of decode over segments, whole-table shape lemma by kernel evaluation. Tie/oracle: "
